@@ -42,7 +42,7 @@ def gen_history(rnd, sp):
             choices += ["reaction"] * 4
         if added_rl < nrl and added_rx >= min(nrx, 1):
             choices += ["rule"] * 2
-        choices += ["set_param", "set_species", "init", "iface", "sim", "sim", "seed", "pickle", "restore"]
+        choices += ["set_param", "set_species", "init", "iface", "sim", "sim", "seed", "pickle", "restore", "refused_edit"]
         if ifaces:
             choices += ["sim_iface"] * 2
         op = rnd.choice(choices)
@@ -91,6 +91,9 @@ def gen_history(rnd, sp):
             ops.append(["seed", rnd.getrandbits(30) + 1])
         elif op == "pickle":
             ops.append(["pickle", rnd.choice([2, 4, 5, "deepcopy"])])
+        elif op == "refused_edit":
+            # an edit bioscrape refuses (undeclared species inside a rate law); the exception is swallowed and work goes on
+            ops.append(["refused_edit", rnd.choice(["hill_s1", "prophill_d", "ma_species", "hill_delay"])])
         if len(ops) > 80:
             break
     # finish: remaining pieces and the definitive values
@@ -208,6 +211,12 @@ def run_case(case):
             elif k == "rule":
                 t = specmod.rule_tuple(sp["rules"][op[1]])
                 H.create_rule(t[0], dict(t[1]), rule_frequency=t[2])
+            elif k == "refused_edit":
+                try:
+                    specmod._poison(H, {"species": list(case["shuffled_species"]), "poison": [[0, op[1]]]}, 0)
+                    C["refused_edits"] += 1
+                except specmod.PoisonAccepted:
+                    return {"error": "harness: the edit meant to be refused was accepted (%s)" % op[1]}
             elif k == "set_param":
                 if op[3] == "set_parameter":
                     H.set_parameter(op[1], op[2])
@@ -254,7 +263,10 @@ def run_case(case):
     # the twin: one constructor call from the same definition (species declared in the target order)
     T = specmod.build_model(sp, "ctor", cls=cls)
     a, b = snapshot(H), snapshot(T)
-    if a[0] != b[0] or {k: v for k, v in a[1].items()} != {k: v for k, v in b[1].items()}:
+    # generated ("DummyVar_...") parameter names carry a running number that a refused edit legitimately advances, and such an
+    # edit may leave unused generated parameters behind: named parameters are compared here, generated ones through behaviour
+    nd = lambda d: {k: v for k, v in d.items() if not k.startswith("DummyVar_")}
+    if a[0] != b[0] or nd(a[1]) != nd(b[1]):
         bad("definition-mismatch", "after the history the dictionaries differ from the twin's: species %r / %r ; params differ on %r" % (
             a[0], b[0], [k for k in set(a[1]) | set(b[1]) if a[1].get(k) != b[1].get(k)]))
         return {"viol": viol, "counters": dict(C), "nontrivial": case["nontrivial"]}
